@@ -406,7 +406,7 @@ func runImpl(c *rig.Ctx, cs Case, rnd func(int) int) (res runResult) {
 	// the virtual unix second of the last real write to the counter's lastSyncTime, and the request of the last tick
 	var lastSyncV int64
 	var lastReq *int64
-	hadRemote, hadCounter, adds := false, false, 0
+	hadRemote := false
 	unixS := func(ns int64) int64 {
 		if ns >= 0 {
 			return ns / 1e9
@@ -495,26 +495,19 @@ func runImpl(c *rig.Ctx, cs Case, rnd func(int) int) (res runResult) {
 			cnt := counterState{}
 			if cache != nil {
 				if hadRemote && !remote.VerifHasRemote(cache) {
-					// the remote wrapper was stopped: wait for the Stop(name) of every Add made under it
-					// (the counter that still existed is removed by one of them)
+					// The remote wrapper was stopped: every globalCounterManager.Add made under it left a goroutine that now
+					// calls Stop(name) — by name, asynchronously: run late it would stop the counter of a LATER wrapper.
+					// They were made runnable by the close; give them a millisecond. (If one still comes late, the count
+					// wrapper is found without its counter below and the case is run again.)
 					remote.VerifSettleCounter(cache)
-					if hadCounter {
-						adds--
-					}
-					if !remote.VerifDrainStops(cache, adds) {
-						if os.Getenv("C09_DEBUG") != "" {
-							fmt.Fprintf(os.Stderr, "drain failed adds=%d hadCounter=%v case=%s\n", adds, hadCounter, rig.Canon(cs))
-						}
-						res.Unreliable = true
-					}
-					adds = 0
+					time.Sleep(time.Millisecond)
 				}
 				hadRemote = remote.VerifHasRemote(cache)
 				exists, isNew, ev, ls := remote.VerifCounter(cache)
-				if isNew {
-					adds++
+				if w := remote.VerifDumpRemote(cache).Wrapper; (w == 2 || w == 3) && !exists {
+					res.Unreliable = true // a stale Stop(name) removed the counter of the wrapper in force
 				}
-				hadCounter = exists
+				_ = isNew
 				if exists && (isNew || ls != remote.VerifLastSyncMark) {
 					// the real code wrote the current time: resetCheck when the counter was created, send after an answer
 					lastSyncV = unixS(clock)
